@@ -38,6 +38,15 @@ CHECKS["C04"] = dict(
         "schedules, quiescence monitor on the implementation; ClassifyMsg tables regenerated from source.",
    design="4/C04", note=RBC_NOTE, technique="Lean 4 inductive-invariant proof over a transition system + step-exact differential correspondence + regenerated tables")
 
+CHECKS["C18"] = dict(
+   text="Lean 4 + Mathlib theorems: Lagrange reconstruction at zero over every field for every node set and polynomial (reconstruct_eq), aggregation in the exponent over every module, on-polynomial keys accepted, "
+        "a single off-polynomial key detected for every party (single_bad_key_detected), chooseKoutOfN = every k-subset exactly once for all n,k (choose_spec), and — for the executable model that the driver runs "
+        "against the real sss.go with the real group order — exec_lagrange_is_lagrange and exec_reconstruct_correct for every prime modulus, coefficient list, n and duplicate-free point list. "
+        "Tie: byte-exact differential runs on both copies, group-level monitors on the real curve.",
+   design="4/C18",
+   note="Trusted: Lean kernel + imported Mathlib modules (axioms audited), the executable model Model/Sss.lean (tied byte-exactly), harness. Assumed: primality of the BN254 group order, the curve library implements a module over that field.",
+   technique="Lean 4 + Mathlib proof (Lagrange interpolation, ZMod p) incl. correctness of the executable model + byte-exact differential correspondence")
+
 NOT_YET = {}
 
 def main():
